@@ -414,6 +414,10 @@ func gen(seed int64, n int, tier string) []interface{} {
 			if f.Cells == nil {
 				f.Cells = []string{}
 			}
+			if k%25 == 11 && len(in.Files) == 0 {
+				// a very long first line (a generated constant, a minified script): one string literal of 70 000 characters
+				f.Cells = append([]string{"\"", strings.Repeat("x", 70000), "\"", x.nl}, f.Cells...)
+			}
 			in.Files = append(in.Files, f)
 		}
 		switch r.Intn(4) {
